@@ -229,7 +229,18 @@ def _backward_defaults(model: Model, Dm: RuleResult):
                   and ast.unparse(s_.value.func).split(".")[-1] == "set_default_option" and len(s_.value.args) == 2
                   and ast.unparse(s_.value.args[1]) == "bck_options"]
         if len(merges) != 1:
-            raise AnalysisError("C18-D: %s.forward no longer builds its backward options with set_default_option(<defaults>, bck_options)" % cname)
+            # another spelling of the merge: decide on the abstract content of the dictionaries saved on ctx
+            saved = ac.option_merge_semantic(model, fc, raw=True)
+            if not saved:
+                Dm.undecided(fw, fw.node, "%s: cannot find how the backward options are built" % cname)
+                continue
+            leaked = {k: v for k, v in saved.items() if any(str(x) in ("$m", "$F1", "$Fs") for x in v.values())}
+            if not leaked:
+                Dm.ok(fw.fq, "%s: the saved backward options contain no forward option (abstract evaluation): %s" % (cname, saved))
+            else:
+                Dm.bad(fw, fw.node, "%s: the backward options inherit forward options (%s): a forward callable specialised to the forward system would be "
+                       "reused for the adjoint system" % (cname, leaked))
+            continue
         d = merges[0].value.args[0]
         names = {n.id for n in ast.walk(d) if isinstance(n, ast.Name)}
         keys = [k.value for k in d.keys if isinstance(k, ast.Constant)] if isinstance(d, ast.Dict) else None
@@ -563,6 +574,14 @@ def _contract(model: Model, sites, A: RuleResult, N: RuleResult):
         defs = function_defs(f.node)
         opt_ok = _derives_from_fwd_options(f, splat[0].value, defs)
         method_removed = _method_removed(f, optname, c)
+        if not (opt_ok and method_removed):
+            # another spelling (a copy, a filtered comprehension, ..): decide on the abstract content of the splatted dictionary
+            _env, snaps, (_fd, _bd, fwd0, _b0, _fp) = ac.abstract_option_run(model, f, watch_calls=[call])
+            got = snaps.get(call)
+            if got is not None:
+                expect = {k_: v_ for k_, v_ in fwd0.items() if k_ != "method"}
+                opt_ok = {k_: v_ for k_, v_ in got.items() if k_ != "method"} == expect
+                method_removed = "method" not in got
         if opt_ok and method_removed:
             A.ok(f.fq, what + " : options derive from the caller's **fwd_options, `method` is not among them")
         elif not opt_ok:
